@@ -200,9 +200,19 @@ func checkC02(p *Prog, res *Result, tier string) {
 
 	// ---- R3 ----
 	checkWhoMayAdvance(p, r, res, "C02-R3")
+	// .. and what the sequencer commits is the revision of the slot it consumed, nothing computed from a request (C04-R3)
+	for _, o := range p.subResult("C04", tier).Obls {
+		if o.Rule == "C04-R3" {
+			res.add("C02-R3", o.Rule+" "+o.Construct, o.Status, o.Pos, o.Detail)
+		}
+	}
 
 	// ---- R4 ----
 	checkHeaderVsData(p, r, a, res)
+	// .. and the etcd translation hands that header on instead of looking at the committed revision again (C16-R9)
+	checkShimHeaders(p, p.leaderRoles(), res, "C02-R4")
+	// .. and the modification revision a scan returns with a value is the revision of that version (C03-R8)
+	checkResultRecordConsistent(p, r, res, "C02-R4")
 
 	// compaction never runs above the committed revision: the deletion record that a delayed create must see (C01-R3's
 	// tombstone guard) is still there (C09-R2)
